@@ -260,8 +260,8 @@ def _pspecs():
         "C08": dict(
             cases=pcases.cases_c08, theorems="Typegen.Theorems.C08",
             trusted_base=[LEAN_TB, PROC_TB, "tg-extract (syn) re-reads the *HashData field lists from src/build/generation_cache.rs on every run; the theorem C08_hashedFields_cover is re-checked against them"],
-            assumptions=FS_ASSUME + ["one representative edit per output-affecting edit class (22 classes + event on/off + commands on/off)"],
-            rule="histories [run, edit a, run] for every edit class a, [run, delete f, run] for every generated file and the cache record, on both paths; [run, edit a, run, edit b, run] for ordered pairs (quick: every 7th pair rotating with the seed; thorough: all 552 + reverted pairs on the build path); "
+            assumptions=FS_ASSUME + ["one representative edit per output-affecting edit class (31 classes + event on/off + commands on/off)", "the hash function is injective on the hashed view (collisions are outside the model)"],
+            rule="histories [run, edit a, run] for every edit class a (incl. non-`pub` field, visibility, async), [setting on, run, setting off + edit, run, setting on, run] for the five settings, [run, delete f, run] for every generated file and the cache record, on both paths; [run, edit a, run, edit b, run] for ordered pairs (quick: every 7th pair rotating with the seed; thorough: all 552 + reverted pairs on the build path); "
                  "after every successful run the output is compared byte-wise (timestamp line ignored) with a forced generation into an empty directory; non-trivial = history with >=2 steps; distinct = history",
             exhaustive={"quick": False, "thorough": True},
             exhaustive_scope={"thorough": "all single edits and ordered pairs of the 24 edit classes"},
